@@ -187,6 +187,14 @@ def check(ctx, report):
     flag_keyed_optionals(ctx, report)
     truth_valued_fields(ctx, report)
     number_presence_by_truth_value(ctx, report)
+    # value level: the shared flag / timestamp primitives (what is written for an instant is read back as that instant, milliseconds
+    # included; tabulation shared with C11.R4 / R5) and the SEC1 point of ECDSA host keys (coordinates keep their width, C07.R12)
+    from .c11 import flags_and_timestamps
+    report.rule('C01.R15', 'flag words and timestamps (seconds and milliseconds): the value composed is the value parsed back')
+    flags_and_timestamps(ctx, report, R4='C01.R15', R5='C01.R15')
+    report.floor('C01.R15', 100, 'tabulated flag words and instants')
+    from .c07 import ecdsa_points
+    ecdsa_points(ctx, report, RULE='C01.R16')
     if 'SslRecord' in reviewed and reviewed['SslRecord'].get('strip_header'):
         # the header left out of the element-wise comparison above
         from .c06 import ssl2_header
